@@ -112,8 +112,53 @@ def validate_translation(levels=1):
     return n, bad, specbad
 
 
+PY_POOL = POOL + [float('inf'), float('-inf'), [2], [1, 1], [1, 2, 3], [[1], 2], [[2]], {'a': [1]}, {'a': {'b': 1}}, datetime.date(2024, 1, 2), 1e308, -1e308,
+                  5e-324, 2 ** 53 + 1, float(2 ** 53), 'a\x00', '\U0001F600', [True], [1.0], {'b': 1, 'a': 2}, {'a': 2, 'b': 1}]
+
+
+def pool_spec_task():
+    """the real value_compare against the written specification and the order laws on a concrete pool (also what still runs when the
+    symbolic translation is skipped because the code left the translator's subset)"""
+    from bare_script.value import value_compare
+    import re
+    pool = list(PY_POOL) + [re.compile('a')]
+    n = 0
+    for x in pool:
+        for y in pool:
+            n += 1
+            for law, vals in (('spec_equivalence', [x, y]), ('antisymmetric', [x, y]), ('reflexive', [x])):
+                try:
+                    ok, info = replay_law(law, vals)
+                except Exception as exc:  # pylint: disable=broad-exception-caught
+                    ok, info = False, {'law': law, 'exception': f'{type(exc).__name__}: {exc}'}
+                if not ok:
+                    try:
+                        plain = [_plain(v) for v in vals]
+                    except (TypeError, ValueError):
+                        plain = None
+                    info['values'] = repr(vals)[:300]
+                    rp = {'module': 'vf.props.c11', 'fn': 'replay_law', 'kwargs': {'law': law, 'values': plain}} if plain is not None else \
+                        {'module': 'vf.props.c11', 'fn': 'replay_pool_pair', 'kwargs': {'i': pool.index(x), 'j': pool.index(y), 'law': law}}
+                    return {'state': 'violation', 'detail': info, 'replay': rp}
+    return {'state': 'ok', 'checked': n}
+
+
+def replay_pool_pair(i, j, law):
+    import re
+    pool = list(PY_POOL) + [re.compile('a')]
+    return replay_law(law, [pool[i], pool[j]] if law != 'reflexive' else [pool[i]])
+
+
 def validation_task():
-    n, bad, specbad = validate_translation(1)
+    from .. import symex as S
+    try:
+        n, bad, specbad = validate_translation(1)
+    except S.Unsupported as exc:
+        return {'state': 'skipped', 'why': f'value_compare left the translator subset ({exc}); the pool check and the consumers still run'}
+    return _validation_result(n, bad, specbad)
+
+
+def _validation_result(n, bad, specbad):
     if bad:
         return {'state': 'error', 'error': f'translator validation mismatch (x, y, encoding, spec, real): {bad[:3]}'}
     for x, y in specbad:
@@ -219,7 +264,7 @@ def replay_law(law, values):
         elif law == 'bool_not_number':
             ok = value_compare(vals[0], vals[1]) != 0
         elif law == 'spec_equivalence':
-            ok = value_compare(vals[0], vals[1]) == py_spec(vals[0], vals[1])
+            ok = value_compare(vals[0], vals[1]) == py_spec(vals[0], vals[1]) and value_compare(vals[0], vals[1]) in (-1, 0, 1)
             info['real'] = value_compare(vals[0], vals[1])
             info['spec'] = py_spec(vals[0], vals[1])
         else:
@@ -423,6 +468,8 @@ def plan(tier, seed, workdir):
     import bare_script.runtime as rt
     p = Plan('C11', 'exploration')
     p.encode(V.value_compare, V.value_type, V.value_normalize_datetime, rt.evaluate_expression, L._array_sort, L._math_min, L._math_max)
+    p.add({'kind': 'native', 'id': 'pool_spec', 'module': 'vf.props.c11', 'fn': 'pool_spec_task', 'kwargs': {}, 'timeout': 600, 'est': 20},
+          family='real value_compare vs specification and laws on a concrete pool incl. infinities (native by-product)')
     p.add({'kind': 'native', 'id': 'translator_validation', 'module': 'vf.props.c11', 'fn': 'validation_task', 'kwargs': {}, 'timeout': 900, 'est': 80},
           family='translator validation: symbolic encoding and spec vs the real value_compare on 961 concrete pairs')
     for law in LAWS:
